@@ -554,7 +554,13 @@ func (in *Interp) violation(label, msg string, _ bool, siteOpt ...string) {
 	known := ""
 	for _, id := range in.knownActive {
 		ke := in.ex.cfg.Known[id]
-		if ke.Match == "" || strings.Contains(label+" "+msg+" "+site, ke.Match) {
+		hit := ke.Match == ""
+		for _, alt := range strings.Split(ke.Match, "|") {
+			if alt != "" && strings.Contains(label+" "+msg+" "+site, alt) {
+				hit = true
+			}
+		}
+		if hit {
 			known = id
 			break
 		}
